@@ -9,13 +9,14 @@
 (* number of the (preconditioned) operator in millidecades: bounds scale with it.      *)
 EXTENDS TraceKit, KrylovRef
 
-CONSTANTS TinyErr,      \* rational reconstruction error of a tiny-system iterate
+\* bounds are given as positive magnitudes XNeg (TLC configuration files have no negative literals): X = -XNeg
+CONSTANTS TinyErrNeg,      \* rational reconstruction error of a tiny-system iterate
           QMax,         \* denominators the recorder can reconstruct
           BiBound,      \* size guard of the BiCGStab reference recurrence (32-bit integers)
-          RefBound,     \* ||x_k - xref_k|| / ||x*||  <= 10^(RefBound/1000) * cond
-          OptBound,     \* optimality / orthogonality defects
-          TermBound,    \* residual after n (+ n/s) iterations
-          TermBoundCxL  \* the same for complex BiCGStab(L >= 2), see docs/C05.md
+          RefBoundNeg,     \* ||x_k - xref_k|| / ||x*||  <= 10^(RefBoundNeg/1000) * cond
+          OptBoundNeg,     \* optimality / orthogonality defects
+          TermBoundNeg,    \* residual after n (+ n/s) iterations
+          TermBoundCxLNeg  \* the same for complex BiCGStab(L >= 2), see docs/C05.md
 
 VARIABLES l, bad
 
@@ -40,9 +41,9 @@ TinyClauses(r) ==
     IN  <<  <<"wellformed", wf>>,
             \* where the definition has an iterate the solver must deliver one (no exception, no NaN) ...
             <<"iterate-exists", judged => got>>,
-            \* ... and it is the defined rational (reconstructed from the double within TinyErr)
+            \* ... and it is the defined rational (reconstructed from the double within (-TinyErrNeg))
             <<"iterate=definition", (judged /\ got) =>
-                  /\ r.err <= TinyErr
+                  /\ r.err <= (-TinyErrNeg)
                   /\ \A i \in 1..2 : Norm(r.xp[i], r.xq[i]) = ref.x[i]>> >>
 
 \* ------------------------------------------------------- reference comparison
@@ -51,28 +52,28 @@ RefClauses(r) ==
     LET wf == \A f \in {"method", "side", "vt", "n", "cond", "err", "it", "nref", "nexc", "nnan"} : Has(r, f)
     IN  <<  <<"wellformed", wf>>,
             <<"an-iterate-for-every-k", wf => (r.nexc = 0 /\ r.nnan = 0 /\ Len(r.err) = r.nref)>>,
-            <<"iterates=reference", wf => AllLe(r.err, RefBound + r.cond)>>,
+            <<"iterates=reference", wf => AllLe(r.err, (-RefBoundNeg) + r.cond)>>,
             <<"maxiter-honoured", wf => \A i \in 1..Len(r.it) : r.it[i] <= i>> >>
 
 CgClauses(r) ==
     LET wf == \A f \in {"gap", "orth", "cond", "dim"} : Has(r, f)
     IN  <<  <<"wellformed", wf>>,
             <<"cg-every-k", wf => Len(r.gap) = r.dim>>,
-            <<"cg=A-norm-minimiser", wf => AllLe(r.gap, OptBound + r.cond)>>,
-            <<"cg-galerkin-orthogonality", wf => AllLe(r.orth, OptBound + r.cond)>> >>
+            <<"cg=A-norm-minimiser", wf => AllLe(r.gap, (-OptBoundNeg) + r.cond)>>,
+            <<"cg-galerkin-orthogonality", wf => AllLe(r.orth, (-OptBoundNeg) + r.cond)>> >>
 
 MinresClauses(r) ==
     LET wf == \A f \in {"gap", "orth", "inc", "cond", "dim", "nbad"} : Has(r, f)
     IN  <<  <<"wellformed", wf>>,
             <<"minres-every-k", wf => (r.nbad = 0 /\ Len(r.gap) = r.dim)>>,
-            <<"residual-minimal", wf => AllLe(r.gap, OptBound + r.cond)>>,
-            <<"residual-orthogonal-to-B-K", wf => AllLe(r.orth, OptBound + r.cond)>>,
-            <<"reported-residual-non-increasing", wf => r.inc <= OptBound>> >>
+            <<"residual-minimal", wf => AllLe(r.gap, (-OptBoundNeg) + r.cond)>>,
+            <<"residual-orthogonal-to-B-K", wf => AllLe(r.orth, (-OptBoundNeg) + r.cond)>>,
+            <<"reported-residual-non-increasing", wf => r.inc <= (-OptBoundNeg)>> >>
 
 TermClauses(r) ==
     LET wf == \A f \in {"method", "vt", "prec", "budget", "cond", "L"} : Has(r, f)
         got == wf /\ ~Has(r, "exc") /\ Has(r, "nan") /\ r.nan = 0 /\ Has(r, "tru") /\ Has(r, "it")
-        bnd == IF r.method = "bicgstabl" /\ r.vt = "complex" /\ r.L >= 2 /\ r.prec = "identity" THEN TermBoundCxL ELSE TermBound
+        bnd == IF r.method = "bicgstabl" /\ r.vt = "complex" /\ r.L >= 2 /\ r.prec = "identity" THEN (-TermBoundCxLNeg) ELSE (-TermBoundNeg)
     IN  <<  <<"wellformed", wf>>,
             <<"terminates-without-failure", wf => got>>,
             <<"solution-within-n-iterations", got => r.tru <= bnd + r.cond>>,
